@@ -82,14 +82,11 @@ def open_text_io_handle_for_reading(
         else:
             logger.debug(f'Looks like decompressed data')
             return io.TextIOWrapper(handle, encoding=encoding)
-    elif isinstance(fh, typing.IO):
-        if isinstance(fh, typing.BinaryIO):
-            logger.debug(f'Looks like a binary IO')
-            return io.TextIOWrapper(fh, encoding=encoding)
-        elif isinstance(fh, typing.TextIO):
-            return fh
-        else:
-            raise ValueError(f'Unexpected type {type(fh)}')
+    elif isinstance(fh, (io.BufferedIOBase, io.RawIOBase)):
+        logger.debug(f'Looks like a binary IO')
+        return io.TextIOWrapper(fh, encoding=encoding)
+    elif isinstance(fh, io.TextIOBase):
+        return fh
     else:
         raise ValueError(f'Unexpected type {type(fh)}')
 
@@ -133,10 +130,10 @@ def open_text_io_handle_for_writing(fh: typing.Union[str, typing.IO],
             return gzip.open(fh, mode='wt', newline='', encoding=encoding)
         else:
             return open(fh, 'w')
-    elif isinstance(fh, typing.BinaryIO):
+    elif isinstance(fh, (io.BufferedIOBase, io.RawIOBase)):
         logger.debug(f'Looks like a binary IO')
         return io.TextIOWrapper(fh, encoding=encoding)
-    elif isinstance(fh, typing.TextIO):
+    elif isinstance(fh, io.TextIOBase):
         return fh
     else:
         raise ValueError(f'Unexpected type {type(fh)}')
